@@ -2,6 +2,7 @@ package mpb
 
 import (
 	"bytes"
+	"io"
 
 	"github.com/vbauerster/mpb/v8/decor"
 	"github.com/vbauerster/mpb/v8/internal"
@@ -97,4 +98,109 @@ func vmPercentageRound(total, current int64, width uint) float64 {
 		vAssume(r == int64(width))
 	}
 	return float64(r)
+}
+
+// ---- draw: the whole row (decorators, spacing, filler) fits the terminal width
+
+// Contract of a bar filler used by the row harness: writes at most AvailableWidth columns and no newline
+// (proved for the built-in fillers by C07.fill.* and C07.spinner.*).
+func vContractFiller() BarFiller {
+	return BarFillerFunc(func(w io.Writer, st decor.Statistics) error {
+		if st.AvailableWidth <= 0 {
+			return nil // nothing fits: the built-in fillers write nothing
+		}
+		fw := vInt("filler.out.w")
+		vAssume(fw >= 0 && fw <= st.AvailableWidth)
+		_, err := io.WriteString(w, vMakeText(fw, 0))
+		return err
+	})
+}
+
+func vWCFlags(name string) int {
+	f := vInt(name)
+	vAssume(f == 0 || f == decor.DindentRight || f == decor.DextraSpace || f == decor.DindentRight|decor.DextraSpace)
+	return f
+}
+
+func vPlainDecorator(name string) decor.Decorator {
+	txt := vText(name + ".text")
+	vAssume(vTextWidth(txt) <= 30)
+	w := vInt(name + ".W")
+	vAssume(w >= 0 && w <= 30)
+	return decor.Any(func(decor.Statistics) string { return txt }, decor.WC{W: w, C: vWCFlags(name + ".C")})
+}
+
+func vhC07Draw() {
+	tw := vInt("tw")
+	vAssume(tw >= 0 && tw <= 60)
+	ps := pState{reqWidth: vInt("reqWidth")}
+	var pre, app []decor.Decorator
+	if vBool("pre0") {
+		pre = append(pre, vPlainDecorator("p0"))
+	}
+	if vBool("pre1") {
+		pre = append(pre, vPlainDecorator("p1"))
+	}
+	if vBool("app0") {
+		app = append(app, vPlainDecorator("a0"))
+	}
+	if vBool("app1") {
+		app = append(app, vPlainDecorator("a1"))
+	}
+	opts := []BarOption{PrependDecorators(pre...), AppendDecorators(app...)}
+	if vBool("trim") {
+		opts = append(opts, BarFillerTrim())
+	}
+	bs := ps.makeBarState(vInt64("total"), vContractFiller(), opts...)
+	bs.current = vInt64("current")
+	stat := bs.newStatistics(tw)
+	r, err := bs.draw(stat)
+	vAssert(err == nil, "C07.draw.noerror")
+	var row bytes.Buffer
+	row.ReadFrom(r)
+	s := row.String()
+	vAssert(vTextWidth(s) <= tw, "C07.draw.row-fits-terminal")
+	vAssert(vTextNL(s) == 1, "C07.draw.one-line")
+	vCover("C07.draw.reach")
+}
+
+// ---- WC.Format: reported width equals the display width of the returned string
+func vhC07Format() {
+	txt := vText("text")
+	vAssume(vTextWidth(txt) <= 1000)
+	w := vInt("W")
+	vAssume(w >= -5 && w <= 1000)
+	wc := decor.WC{W: w, C: vWCFlags("C")}
+	wc.Init()
+	s, width := wc.Format(txt)
+	vAssert(width == vTextWidth(s), "C07.format.width-is-display-width")
+	vAssert(width >= vTextWidth(txt), "C07.format.never-narrower-than-text")
+	vCover("C07.format.reach")
+}
+
+// ---- spinner filler
+func vhC07Spinner() {
+	f0 := vText("frame0")
+	f1 := vText("frame1")
+	vAssume(vTextWidth(f0) <= 4 && vTextWidth(f1) <= 4)
+	st := SpinnerStyle(f0, f1)
+	pos := vInt("position")
+	vAssume(pos >= 0 && pos <= 2)
+	if pos == 1 {
+		st = st.PositionLeft()
+	} else if pos == 2 {
+		st = st.PositionRight()
+	}
+	f := st.Build().(*sFiller)
+	f.count = vUint("count")
+	vAssume(f.count <= 1<<40)
+	stat := vStat(200)
+	var buf bytes.Buffer
+	err := f.Fill(&buf, stat)
+	vAssert(err == nil, "C07.spinner.noerror")
+	w := vTextWidth(buf.String())
+	allotted := internal.CheckRequestedWidth(stat.RequestedWidth, stat.AvailableWidth)
+	vAssert(w <= stat.AvailableWidth, "C07.spinner.fits-available")
+	vAssert(w == 0 || w == allotted, "C07.spinner.exact-or-nothing")
+	vCover("C07.spinner.reach")
 }
